@@ -3,7 +3,7 @@
    do_status / do_stop / do_kill / do_check, get_status / check_status; mypy/dmypy_server.py daemonize,
    Server.serve's status-file handling).  State: the daemon process (none / alive(generation) / dead) and
    what the status file says (absent, or the generation it names).  An external SIGKILL is the
-   environment.  Each command is one action whose outcome (exit status class) is recorded.
+   environment, and so is the passing of the idle time of a daemon started with --timeout (Idle).  Each command is one action whose outcome (exit status class) is recorded.
 
    Properties: at most one daemon is alive; a clean stop leaves no status file; `status` succeeds iff the
    daemon the file names is alive; `start` refuses to start a second daemon; `run` / `restart` always end
@@ -37,12 +37,21 @@ Run == /\ ncmd < MaxCmds
        /\ Log("run", 0)
 Check == /\ ncmd < MaxCmds /\ UNCHANGED <<alive, file, gen, orphans>> /\ Log("check", IF Named THEN 0 ELSE 2)
 ExtKill == /\ ncmd < MaxCmds /\ alive # 0 /\ alive' = 0 /\ UNCHANGED <<file, gen, orphans>> /\ Log("extkill", 0)
-Next == Start \/ Status \/ Stop \/ Kill \/ Restart \/ Run \/ Check \/ ExtKill
+\* The daemon's own idle exit (`--timeout T`: IPCServer.__enter__ raises IPCException out of serve's loop, the
+\* finally-block unlinks the status file because the last command was not "stop").  Only the daemon the file
+\* names can be alive (NoOrphans), so the file it removes is its own.
+Idle == /\ ncmd < MaxCmds /\ alive # 0 /\ alive' = 0 /\ file' = (IF file = alive THEN 0 ELSE file)
+        /\ UNCHANGED <<gen, orphans>> /\ Log("idle", 0)
+Next == Start \/ Status \/ Stop \/ Kill \/ Restart \/ Run \/ Check \/ ExtKill \/ Idle
 Spec == Init /\ [][Next]_vars
 \* ---- properties
 NoOrphans == orphans = 0                                   \* never two live daemons for one status file
 FileNamesLiveOrStale == file # 0 => (file = alive \/ alive = 0)
 StopLeavesNoFile == [][(h' # h /\ h'[Len(h')].cmd = "stop" /\ h'[Len(h')].rc = 0) => file' = 0]_vars
+\* every orderly exit of the daemon (a served stop, its own idle exit) leaves no status file behind
+ExitLeavesNoFile == \A i \in 1..Len(h) : (h[i].cmd \in {"stop", "idle"} /\ h[i].rc = 0) => ~h[i].file
+\* the file never names a daemon other than the live one while one is alive (so Idle removes its own file only)
+IdleRemovesOwnFile == alive # 0 => file = alive
 Complete == ncmd = MaxCmds
 Emit == Complete => PrintT(<<"HIST", ToJson(h)>>)
 ==========================================================================
